@@ -76,10 +76,12 @@ class Model:
 
         logger.debug("step, model time: %4d %s", step, self.timer.time)
 
+        # Remove dead particles before anything is computed per particle,
+        # the forcing keeps per-particle arrays that must stay aligned with the state
+        self.state.compactify()
         self.release.update()
         self.force.update()
 
-        # self.state.compactify()
         if step >= 0:
             self.output.update()
 
